@@ -246,6 +246,10 @@ def parseLine (p : PState) (km : KMap) (line : String) : PState × KMap :=
      | some a => (p.emit a .taskPanic, km)
      | none => (p.oops line, km))
   | "taskpanic" :: _ => (p, km)
+  | ["tdone", a] =>
+    (match a.toNat? with
+     | some a => (p.emit a .taskDone, km)
+     | none => (p.oops line, km))
   | ["stream", a, "ready", k] =>
     (match a.toNat?, k.toNat? with
      | some a, some k => (p.emit a (.streamReady k), km)
